@@ -124,3 +124,46 @@ func TestVerifFindingC01KeyboardPanics(t *testing.T) {
 		}
 	}
 }
+
+// C01 (fixed): yank-nth-arg with a negative numeric argument indexed words[argNth-1] below zero.
+func TestVerifFindingC01YankNthArgNegative(t *testing.T) {
+	defer func() {
+		if r := recover(); r != nil {
+			t.Errorf("yank-nth-arg with argument -1 panics: %v", r)
+		}
+	}()
+	s := newSession(false)
+	s.keys("echo a b", "\r")
+	s.rl.init()
+	s.rl.Iterations.Add("-")
+	s.rl.yankNthArg()
+}
+
+// C01 (fixed): commands that sliced the buffer with positions taken from a selection without checking them.
+// Direct calls on small buffers (states reachable by typing the buffer and moving the cursor).
+func TestVerifFindingC01SelectionSlices(t *testing.T) {
+	cases := []struct {
+		cmd, buf string
+		pos      int
+	}{
+		{"shell-kill-word", "", 0}, {"shell-kill-word", "a ", 2},
+		{"shell-backward-kill-word", "  ", 1},
+		{"shell-transpose-words", "", 0},
+		{"transpose-words", "aaa\"", 3},
+		{"keyword-increase", "", 0}, {"keyword-decrease", "", 0},
+	}
+	for _, c := range cases {
+		func() {
+			defer func() {
+				if r := recover(); r != nil {
+					t.Errorf("%s on %q at %d panics: %v", c.cmd, c.buf, c.pos, r)
+				}
+			}()
+			rl := NewShell()
+			rl.init()
+			rl.line.Set([]rune(c.buf)...)
+			rl.cursor.Set(c.pos)
+			rl.Keymap.Commands()[c.cmd]()
+		}()
+	}
+}
